@@ -46,6 +46,10 @@ def harness(tier, seed):
             out[k] = -0.5 * state[k]
         out[-1] += math.tanh(control[0])
 
+    def model_eq2(state, t, control, out):      # a second, different surrogate
+        for k in range(len(out)):
+            out[k] = -0.25 * state[k] + 0.01 * control[0]
+
     n_seq = 6 if tier == "quick" else 40
     for (system, ctrl) in pairs:
         inst = Instance(system, ctrl)
@@ -85,7 +89,9 @@ def harness(tier, seed):
                 scripts = [["eval", "init", "eval", "get_diff"],
                            ["eval", "set_model", "eval", "set_raw", "eval", "get_diff"],
                            ["eval", "get_diff", "eval", "get_diff", "init", "eval", "get_diff"],
-                           ["eval", "get_diff", "set_model", "eval", "set_raw", "eval", "get_diff"]]
+                           ["eval", "get_diff", "set_model", "eval", "set_raw", "eval", "get_diff"],
+                           ["eval", "set_model", "eval", "set_model2", "eval", "set_raw", "eval", "get_diff", "set_model2", "set_model",
+                            "init", "eval", "get_diff"]]
                 if sq < len(scripts):
                     ops = scripts[sq]
                 else:
@@ -127,6 +133,9 @@ def harness(tier, seed):
                                 collected += rows
                     elif op == "set_model":
                         obj.set_model(model_eq)
+                        mode = "model"
+                    elif op == "set_model2":      # another surrogate while one is already active
+                        obj.set_model(model_eq2)
                         mode = "model"
                     elif op == "set_raw":
                         obj.set_raw()
